@@ -53,6 +53,7 @@ class World:
         self.rng = rng
         self.sbatch_fail = 0            # upcoming sbatch calls that fail
         self.node_errors = []
+        self.killed = []                # (epoch, [job names of the batch whose node died])
 
     # --- HPC executables
     def slurm(self, cmd, output=None, **kw):
@@ -87,6 +88,9 @@ class World:
 
     def order_log(self, epoch):
         return [(k, n) for e, k, n in self.events if e == epoch]
+
+    def killed_jobs(self, epoch):
+        return {n for e, ns in self.killed if e == epoch for n in ns}
 
     def pending(self):
         return [i for i, b in self.batches.items() if b["state"] == "PENDING"]
@@ -211,7 +215,10 @@ def run_node(world, hpc_id):
         except SystemExit:
             pass
         except NodeKilled:
-            pass
+            try:
+                world.killed.append((world.epoch, [j["name"] for j in json.load(open(info["config_file"]))["jobs"]]))
+            except Exception as e:   # noqa
+                world.node_errors.append(repr(e))
         finally:
             b["state"] = "GONE"
     finally:
